@@ -44,8 +44,9 @@ class C13(PipelineCheck):
             'none: on_error with the first failing call\'s exception, outputs before it = prefix of the fault-free run. '
             'non-trivial: >= 1 fault fired and >= 2 keys or >= 4 events; distinct = distinct (program, schedule, plan)')
     assumptions = ['the handler sits directly behind the failing operator (what the statement specifies)',
-                   'with handler "none" the failing operator is the last one of its pipeline, so the mux error reaches the demultiplexer directly']
-    probe_names = ('exception_families', 'falsy_exception_raised', 'fault:first', 'fault:last', 'fault:consecutive', 'fault:all_of_a_key', 'handler:ignore', 'handler:error_map',
+                   'with handler "none" the failing operator is either the last one of its pipeline, so that the mux error reaches the '
+                   'demultiplexer directly, or is followed by operators that hand a mux error on (no take/first, which end a key early)']
+    probe_names = ('unhandled_error_through_operators', 'exception_families', 'falsy_exception_raised', 'fault:first', 'fault:last', 'fault:consecutive', 'fault:all_of_a_key', 'handler:ignore', 'handler:error_map',
                    'handler:router', 'handler:none', 'op:map', 'op:starmap', 'op:filter', 'op:scan', 'stateful_downstream', 'keys>=3',
                    'wrapped_in_window')
 
@@ -60,7 +61,9 @@ class C13(PipelineCheck):
             return False
         h = case['handler']
         if h == 'none':
-            if i != len(nodes) - 1:
+            if i != len(nodes) - 1 and not case.get('through'):
+                return False
+            if i + 1 < len(nodes) and nodes[i + 1]['op'] in ('ignore', 'error_map', 'router'):
                 return False
         else:
             if i + 1 >= len(nodes) or nodes[i + 1]['op'] != h:
@@ -108,6 +111,13 @@ class C13(PipelineCheck):
                 st = St(ot, True)
                 post = g.pipeline(st, Flags(deny=('time_split', 'group_by', 'first', 'last', 'mean')), rng.choice([0, 0, 1]), rng.choice([1, 1, 2]))
                 inner += post
+        through = False
+        if handler == 'none' and rng.random() < 0.5:
+            # no handler at all: the mux error travels through the operators behind OP to the demultiplexer
+            through = True
+            post = g.pipeline(St(ot, True), Flags(deny=('time_split', 'group_by', 'first', 'last', 'mean', 'take', 'take_while', 'skip_last', 'tee_map')),
+                              rng.choice([0, 1, 1]), rng.choice([1, 1, 2]))
+            inner += post
         wrap = rng.choice(['none', 'group_by', 'group_by', 'group_by', 'roll', 'split'])
         if wrap == 'none':
             program = inner
@@ -144,6 +154,8 @@ class C13(PipelineCheck):
         plan = [list(x) for x in sorted(set(tuple(x) for x in plan))]
         case = {'program': program, 'events': events, 'end': 'complete', 'style': style, 'handler': handler,
                 'faults': {SITE: plan}, 'pattern': pattern, 'falsy': rng.choice([False, False, False, True, 'types', 'types'])}
+        if through:
+            case['through'] = True
         if not self.valid(case):
             case['program'] = [{'op': 'group_by', 'key': 'rk', 'inner': [dict(op)] + ([{'op': handler}] if handler not in ('none', 'error_map') else
                                                                                  ([{'op': 'error_map', 'value': {'rec': 'rec', 'int': -1, 'list': []}[ot]}]
@@ -303,6 +315,8 @@ class C13(PipelineCheck):
             p['keys>=3'] += 1
         if program[0]['op'] in ('roll', 'split'):
             p['wrapped_in_window'] += 1
+        if handler == 'none' and len(nodes) > i + 1 and fired:
+            p['unhandled_error_through_operators'] += 1
         if handler != 'none' and len(nodes) > i + 2:
             p['stateful_downstream'] += 1
         return out
